@@ -186,6 +186,27 @@ func (st *State) Expecting() string {
 	return strings.Join(names, "|")
 }
 
+// WhyNot names why token t cannot be shifted in this state: a restricted name class that excludes
+// it (reserved enum value names, `on` as a fragment name), or the token class and the waiting rules.
+func (st *State) WhyNot(t GTok) string {
+	g := st.g
+	last := st.sets[len(st.sets)-1]
+	if t.Kind == KName {
+		for _, it := range last.items {
+			r := g.rules[it.rule]
+			if it.dot < len(r.rhs) && r.rhs[it.dot].isTerm {
+				switch g.terms[r.rhs[it.dot].id].name {
+				case "ENUMNAME":
+					return "reserved-name-as-enum-value"
+				case "FRAGNAME":
+					return "on-as-fragment-name"
+				}
+			}
+		}
+	}
+	return tokClass(t) + " after " + st.Expecting()
+}
+
 // Recognize runs the recognizer over a token list. When it rejects, failAt is the index of the
 // first token that cannot be shifted (len(toks) when the input is a proper prefix of a sentence)
 // and reason names the context.
@@ -194,7 +215,7 @@ func (g *Grammar) Recognize(toks []GTok) (ok bool, failAt int, reason string) {
 	for i, t := range toks {
 		nx := st.Step(t)
 		if nx == nil {
-			return false, i, fmt.Sprintf("%s after %s", tokClass(t), st.Expecting())
+			return false, i, st.WhyNot(t)
 		}
 		st = nx
 	}
